@@ -44,15 +44,27 @@ class Recorder:
         pass
 
 
-def _raise(kind):
+class ProjectAbortTest(AbortTest):          # project-defined subclasses: an `except AbortSuite` / isinstance world, not exact classes
+    pass
+
+
+class ProjectAbortSuite(AbortSuite):
+    pass
+
+
+class ProjectAbortAllTests(AbortAllTests):
+    pass
+
+
+def _raise(kind, subclasses=False):
     if kind == "Exception":
         raise RuntimeError("boom")
     if kind == "AbortTest":
-        raise AbortTest("abort-test")
+        raise (ProjectAbortTest if subclasses else AbortTest)("abort-test")
     if kind == "AbortSuite":
-        raise AbortSuite("abort-suite")
+        raise (ProjectAbortSuite if subclasses else AbortSuite)("abort-suite")
     if kind == "AbortAllTests":
-        raise AbortAllTests("abort-all")
+        raise (ProjectAbortAllTests if subclasses else AbortAllTests)("abort-all")
     if kind == "UserError":
         raise UserError("user-error")
     if kind == "Base":
@@ -103,7 +115,7 @@ def interp(rec, owner, script, env, thread_path=()):
                 spawned = []
             elif op == "raise":
                 rec.record("raise", tag, a[1])
-                _raise(a[1])
+                _raise(a[1], getattr(rec, "abort_subclasses", False))
             else:
                 raise ValueError(op)
     finally:
